@@ -26,7 +26,7 @@ def evaluate(src, pid, checks=None, tier='quick'):
     if not os.path.exists(patch) or not os.path.getsize(patch):
         res['status'] = 'no patch'; return res
     fresh_worktree()
-    rc, out = sh('/venv/bin/python %s' % os.path.join(d, 'demo.py'), cwd=WT, timeout=600)
+    rc, out = sh('/venv/bin/python %s' % os.path.join(d, 'demo.py'), cwd=WT, timeout=600, env=dict(os.environ, PYTHONPATH=WT))
     res['demo_clean_rc'] = rc
     rc, out = sh('git apply %s' % patch, cwd=WT)
     if rc != 0:
@@ -34,7 +34,7 @@ def evaluate(src, pid, checks=None, tier='quick'):
     rc, out = sh('/venv/bin/python -m pytest -q -p no:cacheprovider -x 2>&1 | tail -3', cwd=WT, timeout=1800)
     res['tests'] = out.strip().splitlines()[-1] if out.strip() else ''
     res['tests_pass'] = ' passed' in res['tests'] and 'failed' not in res['tests']
-    rc, out = sh('/venv/bin/python %s' % os.path.join(d, 'demo.py'), cwd=WT, timeout=600)
+    rc, out = sh('/venv/bin/python %s' % os.path.join(d, 'demo.py'), cwd=WT, timeout=600, env=dict(os.environ, PYTHONPATH=WT))
     res['demo_changed_rc'] = rc
     res['confirmed'] = res['demo_clean_rc'] == 0 and res['demo_changed_rc'] != 0 and res['tests_pass']
     # the Coq development is copied too, so that tables regenerated from the changed tree never disturb /verif/coq
